@@ -355,16 +355,16 @@ def run(ck, replay=None):
         if sum(m1) == 0:
             continue
         events.append(thin_event(darsia, rng, f"thinlong:{i}", m1, m2))
-    for i in range(6 if quick else 100):   # ~5-15 s each (six solver runs of up to 60 iterations)
+    for i in range(6 if quick else 60):    # ~5-15 s each (six solver runs of up to 60 iterations)
         events.append(relations_event(darsia, rng, f"rel:{i}"))
-    for i in range(6 if quick else 60):    # every quadrature mode x method on a path of cells
+    for i in range(6 if quick else 36):    # every quadrature mode x method on a path of cells
         events.append(relations_event(darsia, rng, f"relthin:{i}", thin=True))
     for i in range(16 if quick else 150):
         events.append(emd_event(darsia, rng, f"emd:{i}"))
     for i in range(8 if quick else 100):
         events.append(emd_dense_event(darsia, rng, f"emddense:{i}"))
     # the pairwise table of a list of images (distance_matrix), for the OpenCV back-end and for both variational solvers
-    for i in range(3 if quick else 20):
+    for i in range(3 if quick else 9):
         events.append(matrix_event(darsia, rng, f"matrix:{i}", ["emd", "newton", "bregman"][i % 3]))
     bad = ck.validate("Trace_TransportCost", "Trace.cfg", events, chunk=500)
     for b in bad:
